@@ -444,6 +444,7 @@ type Derived struct {
 	Sniffed                string      // http.DetectContentType of the addressed file
 	WriteLimit             int         // > 0: no file can grow beyond that many bytes (RLIMIT_FSIZE) while the request is served; -1: the sandbox was changed by someone else while the body was read (Race)
 	RaceBefore             *Node       // Race: the tree before, with the other party's change applied
+	TagsBefore, TagsAfter  [][2]string // (resource name, entity tag LocalFileSystem.Stat reports) for every stored file before the request, and for the target of a PUT after it: the specification takes the announced tags from here, whatever they look like
 }
 
 func optS(p *string) string {
@@ -458,7 +459,14 @@ func (d Derived) Sx() string {
 	for _, e := range d.MimeTab {
 		mt = append(mt, hx.L(hx.S(e[0]), hx.S(e[1])))
 	}
-	return hx.L("drv", d.DestKind, hx.S(d.DestPath), optS(d.DIfMatch), optS(d.DIfNoneMatch), d.PfForm, hx.I(d.Stamp), hx.S(d.DirTag), hx.B(d.BodyFails), hx.L(mt...), hx.S(d.Sniffed), hx.I(int64(d.WriteLimit)))
+	tb, ta := []string{"b"}, []string{"a"}
+	for _, e := range d.TagsBefore {
+		tb = append(tb, hx.L(hx.S(e[0]), hx.S(e[1])))
+	}
+	for _, e := range d.TagsAfter {
+		ta = append(ta, hx.L(hx.S(e[0]), hx.S(e[1])))
+	}
+	return hx.L("drv", d.DestKind, hx.S(d.DestPath), optS(d.DIfMatch), optS(d.DIfNoneMatch), d.PfForm, hx.I(d.Stamp), hx.S(d.DirTag), hx.B(d.BodyFails), hx.L(mt...), hx.S(d.Sniffed), hx.L("tags", hx.L(tb...), hx.L(ta...)), hx.I(int64(d.WriteLimit)))
 }
 
 func decodeTag(h string) (out *string) {
@@ -703,6 +711,7 @@ func (s *Sandbox) Do(r Req, before *Node) (Derived, Obs, *Node) {
 	if fi, err := s.guardedStat(r.Path); err == nil && fi.IsDir {
 		d.DirTag = fi.ETag
 	}
+	d.TagsBefore = s.statTags(before)
 	// media types: the registry for every extension in play, and what the content of the
 	// addressed file looks like (both are library functions the model takes as inputs)
 	exts := map[string]bool{path.Ext(r.Path): true}
@@ -938,13 +947,49 @@ func (s *Sandbox) Do(r Req, before *Node) (Derived, Obs, *Node) {
 			o.MS = ms
 		}
 	}
-	// modification time the OS gave to what this request wrote (PUT target)
+	// modification time the OS gave to what this request wrote (PUT target), and the tag announced for it now
 	if r.Method == "PUT" && o.Status < 300 {
 		if fi, err := s.guardedStat(r.Path); err == nil {
 			d.Stamp = fi.ModTime.UnixNano()
+			if !fi.IsDir {
+				d.TagsAfter = append(d.TagsAfter, [2]string{fi.Path, fi.ETag})
+			}
 		}
 	}
 	return d, o, after
+}
+
+// statTags asks LocalFileSystem.Stat for the entity tag of every file stored below the
+// served root in tree (a snapshot of the sandbox).
+func (s *Sandbox) statTags(tree *Node) [][2]string {
+	n := tree
+	for _, seg := range s.RootRel {
+		if n == nil || !n.IsDir {
+			return nil
+		}
+		n = n.Kids[seg]
+	}
+	var out [][2]string
+	var walk func(n *Node, name string)
+	walk = func(n *Node, name string) {
+		if n == nil {
+			return
+		}
+		if !n.IsDir {
+			if strings.HasPrefix(n.Content, LinkMark) {
+				return
+			}
+			if fi, err := s.guardedStat(name); err == nil && !fi.IsDir {
+				out = append(out, [2]string{name, fi.ETag})
+			}
+			return
+		}
+		for _, k := range n.Names {
+			walk(n.Kids[k], name+"/"+k)
+		}
+	}
+	walk(n, "")
+	return out
 }
 
 // canonicalRaw is the whole answer as a peer sees it: status, every header (sorted) and
